@@ -2,6 +2,7 @@ package mpckks
 
 import (
 	"math"
+	"math/big"
 
 	"github.com/tuneinsight/lattigo/v6/core/rlwe"
 )
@@ -19,15 +20,20 @@ func GetMinimumLevelForRefresh(lambda int, scale rlwe.Scale, nParties int, modul
 	maxBound := math.Ceil(float64(logBound) + math.Log2(float64(nParties)))
 
 	minLevel = -1
-	logQ := 0.0
 
-	for i := 0; logQ < maxBound; i++ {
+	// The comparison is done on the integers: a sum of float64 logarithms can
+	// round up to maxBound although the modulus is still (slightly) below 2^maxBound.
+	/* #nosec G115 -- maxBound is a small positive integer */
+	need := new(big.Int).Lsh(big.NewInt(1), uint(maxBound))
+	Q := big.NewInt(1)
+
+	for i := 0; Q.Cmp(need) < 0; i++ {
 
 		if i >= len(moduli) {
 			return 0, 0, false
 		}
 
-		logQ += math.Log2(float64(moduli[i]))
+		Q.Mul(Q, new(big.Int).SetUint64(moduli[i]))
 		minLevel++
 	}
 
